@@ -10,21 +10,20 @@ Definition show_sev (e : sev) : string :=
   | MsgLine l => "L:" ++ show_hex l
   | Eom => "EOM"
   | CmdLine l => "C:" ++ show_hex l
+  | MsgRefuse l => "R:" ++ show_hex l
+  | MsgLost => "LOST"
+  | Reply c => "S:" ++ show_N c
   end.
 
-(** input: body bytes, read sizes - 1 (FileSender chunks), network segment sizes - 1 *)
-Definition run_show (c : list N * list nat * list nat) : string :=
-  let '(body, reads, lens) := c in
-  let w := client_wire (split_by reads body) in
-  let '(s, es) := srun_chunks data_start (split_by lens w) in
-  "w=" ++ show_hex w ++ " e=" ++ String.concat " " (map show_sev es).
-
 (** a session: several messages over one connection (the client's line-start flag is threaded through
-    [session_wires]); the server is back in [data_start] after every DATA command *)
-Definition run_session (l : list (list N * list nat * list nat)) : string :=
-  let wires := session_wires true (map (fun m => split_by (snd (fst m)) (fst (fst m))) l) in
+    [session_wires]); the server is back in DATA state after every DATA command, with the message object
+    of that message (refusing at a given lineReceived call / failing eomReceived).
+    input per message: body, read sizes - 1, network segment sizes - 1, refusal index, eom failure *)
+Definition run_session (l : list (list N * list nat * list nat * option nat * bool)) : string :=
+  let wires := session_wires true (map (fun m => split_by (snd (fst (fst (fst m)))) (fst (fst (fst (fst m))))) l) in
   String.concat " ; "
     (map (fun mw => let '(m, w) := mw in
-                    let '(s, es) := srun_chunks data_start (split_by (snd m) w) in
+                    let '(body, reads, lens, rf, ef) := m in
+                    let '(s, es) := srun_chunks (data_start_with rf ef) (split_by lens w) in
                     "w=" ++ show_hex w ++ " e=" ++ String.concat " " (map show_sev es))
          (combine l wires)).
